@@ -130,6 +130,16 @@ def des_inputs(r, t, n):
     bit flips, random strings, the empty string."""
     out = [("empty", b"")]
     bound = bufbound(t)
+    # every nested delimited object sent by "another version": longer than this version's extent, and empty; union options in turn
+    for which in range(4):
+        for mode in ("beyond", "empty"):
+            try:
+                v = M.min_value(t, which)
+                b2 = M.encode_other_version(mode, t, v)
+                if b2 != M.encode(t, v) and len(b2) <= bound + 4096:
+                    out.append(("other_version_" + mode, b2))
+            except (M.Invalid, KeyError, TypeError):
+                pass
     for k in range(n):
         v = M.gen_value(r, t, in_range=True, maxlen=r.choice([1, 4, 12]))
         try:
